@@ -46,6 +46,7 @@ type Loc struct {
 	field string
 	idx   string
 	T     types.Type
+	S     string // sort of the cell when it differs from sortOf(T) (map cells)
 }
 
 type State struct {
@@ -266,7 +267,10 @@ func (fx *Fx) load(st *State, l *Loc) Val {
 		}
 		return v
 	case locCell:
-		s := fx.d.sortOf(l.T)
+		s := l.S
+		if s == "" {
+			s = fx.d.sortOf(l.T)
+		}
 		h := fx.heapTerm(st, l.key, s)
 		return fx.loaded(st, Val{T: l.T, S: s, X: app("select", h, l.ref)})
 	case locField:
@@ -444,7 +448,10 @@ func (fx *Fx) store(st *State, l *Loc, v Val) {
 		}
 		st.env[l.obj] = v
 	case locCell:
-		s := fx.d.sortOf(l.T)
+		s := l.S
+		if s == "" {
+			s = fx.d.sortOf(l.T)
+		}
 		h := fx.heapTerm(st, l.key, s)
 		st.heap[l.key] = fx.share(app("store", h, l.ref, v.X), "(Array Ref "+s+")")
 	case locField:
